@@ -32,6 +32,25 @@ theorem yieldL_interleave (N : Names) (a s : String) : ∀ ts : List Tree,
     simp only [interleave, yieldL_cons, yieldT_lf, ih, List.map_cons, sepBy_cons]
     simp
 
+theorem commaSep_eq (xs : List (List String)) : commaSep xs = sepBy "," xs := by cases xs <;> rfl
+
+theorem yieldL_joinGroups (N : Names) (a s : String) : ∀ gs : List (List Tree),
+    yieldL (joinGroups (N.lf a s) gs) = sepBy s (gs.map yieldL)
+  | [] => by simp [joinGroups, sepBy]
+  | [x] => by simp [joinGroups, sepBy]
+  | x :: y :: rest => by
+    have ih := yieldL_joinGroups N a s (y :: rest)
+    simp only [joinGroups, yieldL_append, yieldL_cons, yieldT_lf, ih, List.map_cons, sepBy_cons]
+    simp
+
+theorem sizeL_mapEntries_mem (N : Names) (recT : Expr → Tree) : ∀ (kvs : List (String × Expr)) (p : String × Expr), p ∈ kvs →
+    size (recT p.2) + 3 ≤ sizeL ((kvs.map (mapEntry N recT)).flatten)
+  | [], _, hp => by simp at hp
+  | q :: qs, p, hp => by
+    rcases List.mem_cons.1 hp with h | h
+    · subst h; simp [mapEntry, exprNode, schemaName, symName]; omega
+    · have := sizeL_mapEntries_mem N recT qs p h; simp; omega
+
 theorem sizeL_opKids_mem (N : Names) (sub : Expr → Tree) : ∀ (parts : List (String × Expr)) (p : String × Expr), p ∈ parts →
     size (sub p.2) + 1 ≤ sizeL ((parts.map (fun p => [N.lf (opTok p.1) p.1, sub p.2])).flatten)
   | [], _, hp => by cases hp
@@ -93,6 +112,21 @@ theorem yield_tAtom (e : Expr) (G : Nat) (hw : wAtom recW e = true) (hG : size (
     have hsz := sizeL_le_interleave (N.lf "T__6" ",") (es.map (fun e => exprNode N (recT e)))
     have hy := yield_exprNodes recT recW Hrec es G' hw (by omega)
     simp [eExpr, tAtom, tAtomInner, yieldL_interleave, hy, commaSep, sepBy]
+  | map kvs =>
+    simp only [wAtom, wMap, Bool.and_eq_true, List.all_eq_true] at hw
+    simp only [tAtom, tAtomInner, tMap, size_nd, sizeL_cons', sizeL_append, size_lf, sizeL_nil'] at hG
+    obtain ⟨G', rfl⟩ : ∃ G', G = G' + 1 := ⟨G - 1, by omega⟩
+    have hsz := sizeL_joinGroups_ge (N.lf "T__6" ",") (kvs.map (mapEntry N recT))
+    have hy : kvs.map (fun p => [escapeKeyTok p.1, ":"] ++ eExpr G' p.2) = (kvs.map (mapEntry N recT)).map yieldL := by
+      rw [List.map_map]
+      apply List.map_congr_left
+      intro p hp
+      have h1 := sizeL_mapEntries_mem N recT kvs p hp
+      have h2 := Hrec p.2 G' (hw.1 p hp).2 (by omega)
+      simp [mapEntry, schemaName, symName, exprNode, escapeKeyTok_simple p.1 (hw.1 p hp).1, h2]
+    rw [eExpr]
+    simp only [hy, tAtom, tAtomInner, tMap, yieldT_nd, yieldL_cons, yieldL_append, yieldL_nil, yieldT_lf, yieldL_joinGroups, commaSep_eq]
+    simp
   | paren x =>
     simp only [wAtom] at hw
     simp only [tAtom, tAtomInner, exprNode, size_nd, sizeL_cons', size_lf, sizeL_nil'] at hG
@@ -153,7 +187,7 @@ theorem yield_propKids : ∀ (e : Expr) (G : Nat), wProps recW e = true → size
   | .cmp _ _, _, hw, _ => by simp [wProps, isCountStar, wAtom] at hw
   | .arith _ _, _, hw, _ => by simp [wProps, isCountStar, wAtom] at hw
   | .unary _ _, _, hw, _ => by simp [wProps, isCountStar, wAtom] at hw
-  | .map _, _, hw, _ => by simp [wProps, isCountStar, wAtom] at hw
+  | .map kvs, G, hw, hG => yield_base recT recW Hrec _ G (by simpa [wProps] using hw) (by simpa [propKids] using hG) |>.trans (by simp [propKids])
   | .quant _ _ _ _, _, hw, _ => by simp [wProps, isCountStar, wAtom] at hw
   | .patPred _, _, hw, _ => by simp [wProps, isCountStar, wAtom] at hw
   | .nil, _, hw, _ => by simp [wProps, isCountStar, wAtom] at hw
